@@ -51,11 +51,11 @@ package report
 // reported exactly when the effective versions of the file lie in the ranges (and it is not
 // filtered as generated code).
 //@ func Report
-//@   requires pass != nil && pass.TypesInfo != nil && pass.Pkg != nil && istype(pass.ResultOf[tokenfile.Analyzer], map[*token.File]*ast.File)
-//@   requires istype(pass.ResultOf[generated.Analyzer], map[string]generated.Generator)
+//@   requires pass != nil && pass.TypesInfo != nil && pass.Pkg != nil && (tokenfile.Analyzer in pass.ResultOf) && istype(pass.ResultOf[tokenfile.Analyzer], map[*token.File]*ast.File)
+//@   requires (generated.Analyzer in pass.ResultOf) && istype(pass.ResultOf[generated.Analyzer], map[string]generated.Generator)
 //@   may_panic
 //@   loop 1   modifies *cfg
 //@   counts   reported calls analysis.(Pass).Report
 //@   ensures  [atmostonce] count(reported) <= 1
 //@   ensures  [iff] count(reported) == 1 <==> (inrange(cfg.MinimumLanguageVersion, cfg.MaximumLanguageVersion, langVersion) && inrange(cfg.MinimumStdlibVersion, cfg.MaximumStdlibVersion, stdlibVersion) && !(cfg.FilterGenerated && DisplayPosition(pass.Fset, node.Pos()).Filename in astype(pass.ResultOf[generated.Analyzer], map[string]generated.Generator)))
-//@   at call code.LanguageVersion#1 assert [pre] pass.TypesInfo != nil && istype(pass.ResultOf[tokenfile.Analyzer], map[*token.File]*ast.File)
+//@   at call code.LanguageVersion#1 assert [pre] pass.TypesInfo != nil && (tokenfile.Analyzer in pass.ResultOf) && istype(pass.ResultOf[tokenfile.Analyzer], map[*token.File]*ast.File)
